@@ -262,3 +262,25 @@ Definition observe (s : state) :=
    (map (st s) (seq 0 N), map (wp s) (seq 0 N), map (alpha s) (seq 0 N), map (out s) (seq 0 N))).
 
 End Model.
+
+(* ------------------------------------------------------------------------------------------------
+   Specification vocabulary (definitions only; the proofs are in C12_Proofs.v) *)
+
+(* states reachable by any interleaving of thread steps and spurious wake-ups *)
+Inductive reachable (N na : nat) (lt : nat -> nat -> bool) (fixed : bool) : state -> Prop :=
+| reach_init : reachable N na lt fixed init
+| reach_step : forall s t s', reachable N na lt fixed s -> step N na lt fixed s t = Some s' -> reachable N na lt fixed s'
+| reach_spur : forall s t s', reachable N na lt fixed s -> spurious N s t = Some s' -> reachable N na lt fixed s'.
+
+Definition finished (s : state) : Prop := cp s = CDone.
+
+(* the coordinator is about to read the outputs of trial j (selection loop of block blk s) *)
+Definition coordinator_reading (N na : nat) (s : state) (j : nat) : Prop := cp s = CRead /\ in_block N na (blk s) j = true.
+(* worker j has finished the trial step of the current block: its outputs are for step blk*N+j, it is not computing *)
+Definition worker_done_with_block (N : nat) (s : state) (j : nat) : Prop :=
+  out s j = Some (blk s * N + j) /\ st s j = WAIT /\
+  match wp s j with WCompute1 | WCompute2 | WLock2 | WReport | WUnlock2 => False | _ => True end.
+
+(* first acceptable trial step: the meaning of the sequential selection *)
+Definition is_first_good (na : nat) (lt : nat -> nat -> bool) (a : nat) : Prop :=
+  1 <= a < na /\ goodsel na lt a = true /\ forall k, 1 <= k < a -> goodsel na lt k = false.
